@@ -19,6 +19,7 @@ EXPLANATION = (
     "the required keys; the guard constant and key agree by folded value with the report's own type "
     "(termination of the report recursion); who-may-call: destinations are invoked and the list is "
     "mutated nowhere else."
+    "  The threaded writer's own rules (C19: unregister before the stop marker is queued, reader leaves only on the marker, a destination failure is contained inside the loop, one delivery per dequeued item) are part of this property as well."
 )
 RULE = ("obligation = rule instance bound to a loop / call site / handler / constant of Destinations.send "
         "and its callers; distinct constructs; non-trivial = at least one CFG path examined")
